@@ -387,6 +387,9 @@ def d4(cx: Cx, ob: Ob) -> None:
         if (op(t) == "list" and not t[1]) or (op(t) == "new" and op(t[4]) == "list" and not t[4][1] and not s.mutations_of(t)):
             saw_none = True
             g = [g for g in ctx.guards if g.kind == "guard"]
+            # a bound term that is not a URI at all (a literal, a blank node): outside what the property speaks about
+            if any(x.b is True and op(x.a) == "call" and x.a[1] == ("builtin", "isinstance") and len(x.a[2]) == 2 and x.a[2][0] == arg and not any(show(y).rsplit(".", 1)[-1] in ("URIRef", "str", "Identifier", "Node") for y in (x.a[2][1][1] if op(x.a[2][1]) == "tuple" else (x.a[2][1],))) for x in g):
+                continue
             if not any(op(x.a) == "cmp" and is_const(x.a[3], None) and callee_name(x.a[2]) == "parse_uri" for x in g):
                 ob.violate(fn.qualname, where(fn, line), "the empty answer is not tied to parse_uri finding nothing", detail="empty-guard")
             continue
@@ -667,6 +670,21 @@ def d7(cx: Cx, ob: Ob) -> None:
         # elements of the returned set
         elems = []
         src = t
+        # set(CONSTANT) / frozenset display kept in a module-level constant: its elements
+        while op(src) == "call" and src[1] in (("builtin", "set"), ("builtin", "frozenset")) and len(src[2]) == 1 and not src[3]:
+            src = src[2][0]
+        if op(src) == "gconst":
+            from ..terms import Lowering
+
+            mod_ = cx.model.modules.get(src[1])
+            node_ = mod_.constants.get(src[2]) if mod_ is not None else None
+            if node_ is not None:
+                try:
+                    src = Lowering(cx.model, None, mod_).expr(node_, {})
+                except Exception:  # noqa: BLE001
+                    pass
+            while op(src) == "call" and src[1] in (("builtin", "set"), ("builtin", "frozenset")) and len(src[2]) == 1 and not src[3]:
+                src = src[2][0]
         if op(src) == "new":
             init = src[4]
             elems += list(init[1]) if op(init) in ("set", "list") else []
